@@ -262,9 +262,10 @@ class PersLandscapeExact(PersLandscape):
         A = self.dgms
         # change A into a list
         A = list(A)
-        # change inner nparrays into lists
+        # change inner nparrays into lists of Python floats: mid-points and intersections are
+        # then computed in binary64 whatever the dtype of the diagram (float32, integers)
         for i in range(len(A)):
-            A[i] = list(A[i])
+            A[i] = [float(x) for x in A[i]]
         if A and A[-1][1] == np.inf:
             A.pop(-1)
 
